@@ -6,8 +6,11 @@ package types
 
 // ConvertGoType dispatches on the dynamic type and calls the go*Recast functions, none of which
 // writes to memory reachable by its caller.
+// It is a deterministic function of the value and the requested type ($cgt names its result).
+//@ spec $cgt(v any, dt string) any
 //@ func ConvertGoType [C13] trusted
 //@   modifies nothing
+//@   ensures imp(result1 == nil, result == $cgt(v, dataType))
 
 // ---- C07: truthiness ------------------------------------------------------------------------------------
 // The table of the property statement: after trimming and lower-casing, exactly these words are false.
